@@ -100,8 +100,13 @@ where
         let a_size: usize = res_infos.max_k().as_usize().div_ceil(tsk_base2k);
 
         let lvl_0: usize = self.bytes_of_vec_znx_dft(cols - 1, a_size) + VecZnx::bytes_of(self.n(), 1, a_size);
-        let lvl_1_res_dft: usize = self.bytes_of_vec_znx_dft(cols, a_size);
-        let lvl_1_gglwe_prod: usize = self.gglwe_product_dft_tmp_bytes(res_size, a_size, tsk_infos);
+        // The product accumulator is carved with the key's limb count (see ggsw_expand_rows_internal),
+        // which exceeds the result's when the key is more precise.
+        let tsk_size: usize = tsk_infos.size();
+        let lvl_1_res_dft: usize = self.bytes_of_vec_znx_dft(cols, a_size.max(tsk_size));
+        let lvl_1_gglwe_prod: usize = self
+            .gglwe_product_dft_tmp_bytes(res_size, a_size, tsk_infos)
+            .max(self.gglwe_product_dft_tmp_bytes(tsk_size, a_size, tsk_infos));
         let lvl_1_norm_big: usize = self.vec_znx_big_normalize_tmp_bytes();
         let lvl_1: usize = lvl_1_res_dft + lvl_1_gglwe_prod.max(lvl_1_norm_big);
         let lvl_2: usize = if res_infos.base2k() == tsk_infos.base2k() {
